@@ -276,6 +276,13 @@ Definition main_pos_borrowed (p : pos) : bool :=
   | _ => false
   end.
 
+(** the tokens on which the main reader still differs from a conforming decoder: an escaped
+    spelling at head / a version key.  Not a defect class of C10 (rocfl never writes such a
+    token, Proofs/JsonPosFacts.v [written_token_not_escaped_version_name]); it is the
+    hypothesis of the theorems about inventories written by other software. *)
+Definition escaped_version_name_token (p : pos) (tok : bytes) : bool :=
+  main_pos_borrowed p && has_escape tok.
+
 (** HISTORICAL main reader, before fix bb69bb9 (manifest / state digests and logical
     paths were &str / Vec<&str>).  NOT the current code; kept under its old name because
     the `..._before_fix` notes of Props/C10.v refer to it. *)
